@@ -19,7 +19,7 @@ def run(ctx):
     full = variants.gen(ctx, "layoutN", workers=8) if not quick else None
     R = flow.Runner(ctx)
     nb = 0
-    keys = ["ind", "sep", "comma", "brk", "opsp", "trail", "cmt", "cmtsp", "own", "blank", "eol", "final"]
+    keys = ["ind", "sep", "comma", "brk", "opsp", "trail", "cmt", "cmtsp", "own", "blank", "eol", "final", "kwsp"]
     dom = {k: sorted({c[k] for c in single}, key=str) for k in keys}
     # object-file style sources: bracket directives directly followed by labels, GLOBAL lists (naskfunc.nas layout)
     objstyle = [[{"k": "cfg", "mn": "FORMAT", "s": "WCOFF"}, {"k": "cfg", "mn": "INSTRSET", "s": '"i486p"'}, {"k": "bits", "v": 32}, {"k": "cfg", "mn": "FILE", "s": "naskfunc.nas"},
@@ -30,16 +30,27 @@ def run(ctx):
                  {"k": "ins", "mn": "MOV", "ops": [{"t": "m", "w": 0, "aw": 32, "b": 1, "x": -1, "sc": 1, "d": 0, "hd": 0}, {"t": "r", "w": 8, "n": 0}]}, {"k": "ins", "mn": "RET", "ops": []}],
                 [{"k": "bits", "v": 32}, {"k": "label", "nm": "start"}, {"k": "ins", "mn": "MOV", "ops": [{"t": "r", "w": 32, "n": 0}, {"t": "i", "v": 1, "sty": "d"}]},
                  {"k": "br", "mn": "JMP", "tgt": {"t": "l", "nm": "start", "add": 0}}, {"k": "bits", "v": 16}, {"k": "label", "nm": "tail"}, {"k": "ins", "mn": "HLT", "ops": []}]]
+    # size keywords in front of memory operands and far pointers (the gap after the keyword may be empty: BYTE[BX])
+    mm = lambda w, aw, b, d: {"t": "m", "w": w, "aw": aw, "b": b, "x": -1, "sc": 1, "d": d, "hd": 1 if d else 0}
+    ri = lambda w, n: {"t": "r", "w": w, "n": n}
+    im = lambda v: {"t": "i", "v": v, "sty": "d"}
+    kwstyle = [[{"k": "org", "v": 0x7c00}, {"k": "ins", "mn": "MOV", "ops": [mm(8, 16, 3, 0), im(1)]}, {"k": "ins", "mn": "MOV", "ops": [ri(16, 0), mm(16, 16, 6, 0)]},
+                {"k": "ins", "mn": "MOV", "ops": [mm(16, 16, 3, 2), im(5)]}, {"k": "ins", "mn": "ADD", "ops": [mm(8, 16, 7, 1), im(3)]},
+                {"k": "ins", "mn": "CMP", "ops": [mm(16, 16, 5, 4), im(100)]}, {"k": "far", "mn": "JMP", "seg": 16, "off": 27, "kw": "DWORD", "sty": "h"},
+                {"k": "label", "nm": "tail"}, {"k": "ins", "mn": "HLT", "ops": []}],
+               [{"k": "bits", "v": 32}, {"k": "ins", "mn": "MOV", "ops": [mm(32, 32, 1, 0), im(5)]}, {"k": "ins", "mn": "MOV", "ops": [ri(32, 0), mm(32, 32, 4, 4)]},
+                {"k": "ins", "mn": "MOV", "ops": [mm(8, 32, 3, 12), im(7)]}, {"k": "ins", "mn": "ADD", "ops": [mm(32, 32, 6, 0), im(1)]},
+                {"k": "far", "mn": "JMP", "seg": 16, "off": 27, "kw": "DWORD", "sty": "h"}, {"k": "label", "nm": "tail"}, {"k": "ins", "mn": "RET", "ops": []}]]
     for bits in (16, 32):
         cases = progs.gen(ctx, 15 if quick else 120, length=14, nl=3, bits=bits)
-        allbases = [progs.complete(c, org=0x7c00, bits=bits) for c in cases] + (objstyle if bits == 32 else [])
+        allbases = [progs.complete(c, org=0x7c00, bits=bits) for c in cases] + (objstyle if bits == 32 else []) + [kwstyle[0 if bits == 16 else 1]]
         for base in allbases:
             bid = R.add(base)
             nb += 1
             lays = list(single)
             for _ in range(10 if quick else 40):     # seeded full random layouts (uniform EOL per file, other gaps per statement)
                 if full:
-                    lays.append(rng.choice(full))
+                    lays.append(dict(rng.choice(full), kwsp=rng.choice(dom["kwsp"])))
                 else:
                     lays.append({k: rng.choice(dom[k]) for k in keys})
             for lay in lays:
